@@ -7,26 +7,33 @@ import (
 	"github.com/youzan/ZanRedisDB/cluster"
 )
 
-// memRegister: in-memory cluster.PDRegister holding ONE namespace with ONE partition.
+// memRegister: in-memory cluster.PDRegister holding ONE namespace with partitions 0..n-1.
 // Reads return deep copies carrying the stored modification index (epoch); the replica-info update
 // is a compare-and-swap on that index, exactly the contract of PDEtcdRegister.
 // Every update ATTEMPT is logged (value passed by the coordinator, old generation, outcome).
 type attempt struct {
+	pid    int
 	info   cluster.PartitionReplicaInfo
 	oldGen int64
 	ok     bool
+}
+
+type pstate struct {
+	info  cluster.PartitionReplicaInfo // stored value
+	epoch int64                        // its modification index
 }
 
 type memRegister struct {
 	mu       sync.Mutex
 	ns       string
 	meta     cluster.NamespaceMetaInfo
-	info     cluster.PartitionReplicaInfo // stored value
-	epoch    int64                        // modification index of the stored value
+	parts    []*pstate
+	touched  []int                        // partitions in the order the coordinator first looked at them in this event
 	counter  int64                        // global modification index
 	failNext int                          // the next failNext updates fail (register unreachable / concurrent writer)
 	attempts []attempt
 	onAttempt func() // called (outside the lock) at every update attempt
+	onGetAll  func() // called (outside the lock) at every GetAllNamespaces
 
 	// 0 healthy; 1 etcd unreachable, the namespace cache still serves (remote read, KV and updates fail); 2 all fails
 	mode int
@@ -46,20 +53,33 @@ type watcher struct {
 var errCAS = errors.New("compare failed")
 var errUnreach = errors.New("register unreachable")
 
-func newMemRegister(ns string, replica int, info cluster.PartitionReplicaInfo) *memRegister {
+func newMemRegister(ns string, replica int, infos []cluster.PartitionReplicaInfo) *memRegister {
 	r := &memRegister{ns: ns, kv: map[string]string{}, watchReady: make(chan struct{}, 8)}
-	r.meta = cluster.NamespaceMetaInfo{PartitionNum: 1, Replica: replica, MagicCode: 1, MinGID: 0, EngType: "mem"}
+	r.meta = cluster.NamespaceMetaInfo{PartitionNum: len(infos), Replica: replica, MagicCode: 1, MinGID: 0, EngType: "mem"}
 	r.counter = 1
-	r.epoch = 1
-	r.info = info.DeepClone()
+	for _, i := range infos {
+		r.parts = append(r.parts, &pstate{info: i.DeepClone(), epoch: 1})
+	}
 	return r
 }
 
-func (r *memRegister) partCopy() cluster.PartitionMetaInfo {
-	p := cluster.PartitionMetaInfo{Name: r.ns, Partition: 0}
+func (r *memRegister) has(pid int) bool { return pid >= 0 && pid < len(r.parts) }
+
+// touch notes that the coordinator is now working on partition pid (caller holds the lock or is the stub)
+func (r *memRegister) touch(pid int) {
+	for _, p := range r.touched {
+		if p == pid {
+			return
+		}
+	}
+	r.touched = append(r.touched, pid)
+}
+
+func (r *memRegister) partCopy(pid int) cluster.PartitionMetaInfo {
+	p := cluster.PartitionMetaInfo{Name: r.ns, Partition: pid}
 	p.NamespaceMetaInfo = r.meta.DeepClone()
-	p.PartitionReplicaInfo = r.info.DeepClone()
-	p.PartitionReplicaInfo.VerifSetEpoch(cluster.EpochType(r.epoch))
+	p.PartitionReplicaInfo = r.parts[pid].info.DeepClone()
+	p.PartitionReplicaInfo.VerifSetEpoch(cluster.EpochType(r.parts[pid].epoch))
 	return p
 }
 
@@ -79,35 +99,41 @@ func (r *memRegister) GetAllPDNodes() ([]cluster.NodeInfo, error) {
 	return nil, nil
 }
 // stored is the harness's own view of the stored value (never fails)
-func (r *memRegister) stored() *cluster.PartitionMetaInfo {
+func (r *memRegister) stored(pid int) *cluster.PartitionMetaInfo {
 	r.mu.Lock()
 	defer r.mu.Unlock()
-	p := r.partCopy()
+	p := r.partCopy(pid)
 	return &p
 }
 
 func (r *memRegister) GetNamespacePartInfo(ns string, partition int) (*cluster.PartitionMetaInfo, error) {
 	r.mu.Lock()
 	defer r.mu.Unlock()
+	if r.has(partition) {
+		r.touch(partition)
+	}
 	if r.mode >= 2 {
 		return nil, errUnreach
 	}
-	if ns != r.ns || partition != 0 {
+	if ns != r.ns || !r.has(partition) {
 		return nil, cluster.ErrKeyNotFound
 	}
-	p := r.partCopy()
+	p := r.partCopy(partition)
 	return &p, nil
 }
 func (r *memRegister) GetRemoteNamespaceReplicaInfo(ns string, partition int) (*cluster.PartitionReplicaInfo, error) {
 	r.mu.Lock()
 	defer r.mu.Unlock()
+	if r.has(partition) {
+		r.touch(partition)
+	}
 	if r.mode >= 1 {
 		return nil, errUnreach
 	}
-	if ns != r.ns || partition != 0 {
+	if ns != r.ns || !r.has(partition) {
 		return nil, cluster.ErrKeyNotFound
 	}
-	p := r.partCopy()
+	p := r.partCopy(partition)
 	return &p.PartitionReplicaInfo, nil
 }
 func (r *memRegister) GetNamespaceMetaInfo(ns string) (cluster.NamespaceMetaInfo, error) {
@@ -132,16 +158,29 @@ func (r *memRegister) GetNamespaceInfo(ns string) ([]cluster.PartitionMetaInfo, 
 	if ns != r.ns {
 		return nil, cluster.ErrKeyNotFound
 	}
-	return []cluster.PartitionMetaInfo{r.partCopy()}, nil
+	var out []cluster.PartitionMetaInfo
+	for pid := range r.parts {
+		out = append(out, r.partCopy(pid))
+	}
+	return out, nil
 }
 func (r *memRegister) GetAllNamespaces() (map[string]map[int]cluster.PartitionMetaInfo, cluster.EpochType, error) {
 	r.mu.Lock()
-	defer r.mu.Unlock()
+	cb := r.onGetAll
 	if r.mode >= 2 {
+		r.mu.Unlock()
 		return nil, 0, errUnreach
 	}
-	m := map[string]map[int]cluster.PartitionMetaInfo{r.ns: {0: r.partCopy()}}
-	return m, cluster.EpochType(r.counter), nil
+	m := map[string]map[int]cluster.PartitionMetaInfo{r.ns: {}}
+	for pid := range r.parts {
+		m[r.ns][pid] = r.partCopy(pid)
+	}
+	c := r.counter
+	r.mu.Unlock()
+	if cb != nil {
+		cb()
+	}
+	return m, cluster.EpochType(c), nil
 }
 func (r *memRegister) GetNamespacesNotifyChan() chan struct{} { return nil }
 func (r *memRegister) GetNamespaceSchemas(ns string) (map[string]cluster.SchemaInfo, error) {
@@ -243,7 +282,7 @@ func (r *memRegister) UpdateNamespaceMetaInfo(ns string, meta *cluster.Namespace
 func (r *memRegister) CreateNamespacePartition(ns string, partition int) error { return nil }
 func (r *memRegister) IsExistNamespace(ns string) (bool, error)                { return ns == r.ns, nil }
 func (r *memRegister) IsExistNamespacePartition(ns string, partition int) (bool, error) {
-	return ns == r.ns && partition == 0, nil
+	return ns == r.ns && r.has(partition), nil
 }
 func (r *memRegister) DeleteNamespacePart(ns string, partition int) error { return nil }
 func (r *memRegister) DeleteWholeNamespace(ns string) error               { return nil }
@@ -251,23 +290,26 @@ func (r *memRegister) DeleteWholeNamespace(ns string) error               { retu
 func (r *memRegister) UpdateNamespacePartReplicaInfo(ns string, partition int,
 	replicaInfo *cluster.PartitionReplicaInfo, oldGen cluster.EpochType) error {
 	r.mu.Lock()
-	a := attempt{info: replicaInfo.DeepClone(), oldGen: int64(oldGen)}
+	a := attempt{pid: partition, info: replicaInfo.DeepClone(), oldGen: int64(oldGen)}
 	var err error
+	if r.has(partition) {
+		r.touch(partition)
+	}
 	switch {
-	case ns != r.ns || partition != 0:
+	case ns != r.ns || !r.has(partition):
 		err = cluster.ErrKeyNotFound
 	case r.mode >= 1:
 		err = errUnreach
 	case r.failNext > 0:
 		r.failNext--
 		err = errUnreach
-	case int64(oldGen) != r.epoch:
+	case int64(oldGen) != r.parts[partition].epoch:
 		err = errCAS
 	default:
 		r.counter++
-		r.epoch = r.counter
-		r.info = replicaInfo.DeepClone()
-		replicaInfo.VerifSetEpoch(cluster.EpochType(r.epoch))
+		r.parts[partition].epoch = r.counter
+		r.parts[partition].info = replicaInfo.DeepClone()
+		replicaInfo.VerifSetEpoch(cluster.EpochType(r.counter))
 		a.ok = true
 	}
 	r.attempts = append(r.attempts, a)
